@@ -226,5 +226,5 @@ OBLIGATIONS = [
          encodes=['GetObjectTask._main', 'DownloadChunkIterator', 'StreamReaderProgress'], assumptions=['S1']),
 ]
 
-from harness.codownload import OB_DL, protocol as co_download_protocol  # noqa: E402
+from harness.codownload import OB_DL, protocol_fixed as co_download_protocol  # noqa: E402
 OBLIGATIONS += [dict(OB_DL, id='C02.5', impl='co_download_protocol', cases=[('stream', 3, 4), ('seekable', 3, -1)])]
